@@ -101,3 +101,15 @@ fn utf8_decoder_two_chars() {
     assert!(r2 == Some((n1 + n2, c2)));
     assert!(it.next().is_none());
 }
+
+#[kani::proof]
+fn num_bytes_labels() {
+    use crate::nfa_builder::EdgeLabel;
+    let c: char = kani::any();
+    let b: u8 = kani::any();
+    // contract assumed by the `add` contract: the byte length of a label is its UTF-8 length (1 for a byte)
+    assert!(c.num_bytes() == c.len_utf8());
+    let v = c as u32;
+    assert!(c.num_bytes() == if v < 0x80 { 1 } else if v < 0x800 { 2 } else if v < 0x10000 { 3 } else { 4 });
+    assert!(b.num_bytes() == 1);
+}
